@@ -236,6 +236,17 @@ func genEdgesNum(r *rng, p gp, kind int) (n int, es [][2]int) {
 func adversarialNames(r *rng, n int) []string {
 	pool := []string{"V1", "V2", "V3", "V4", "NE0", "NE1", "NE2", "NE3", "", " ", "V0", "NE", "n0", "N1",
 		"é世界\U0001F600", strings.Repeat("x", 300), "a\"b\\c", "v1", "0", "-1"}
+	if r.chance(1, 3) {
+		// names that are prefixes / concatenations of each other: "1"+"12" == "11"+"2", "a"+"bc" == "ab"+"c"
+		pool = []string{"1", "11", "12", "2", "21", "112", "121", "a", "ab", "bc", "c", "abc", "b", "V1", "V11", "V"}
+	}
+	if r.chance(1, 4) {
+		// unary names: every two edges whose name lengths add up to the same number have the same concatenation
+		pool = nil
+		for k := 1; k <= n+2; k++ {
+			pool = append(pool, strings.Repeat("1", k))
+		}
+	}
 	pm := r.perm(len(pool))
 	out := make([]string, n)
 	for i := range out {
